@@ -45,7 +45,7 @@ STRIP_COMPOSITIONS = [
 # specs
 # ---------------------------------------------------------------------------
 
-def random_profile_spec(rng, chem_names, background):
+def random_profile_spec(rng, chem_names, background, lack_ok=False):
     H = rng.choice([400., 800., 1500., 2000.])
     n = rng.choice([12, 25, 40])
     spec = {
@@ -55,7 +55,19 @@ def random_profile_spec(rng, chem_names, background):
         'background': {},
     }
     if background:
-        for name in chem_names:
+        # the profile stores its chemical columns in ITS OWN order: a permutation of the requested names that differs
+        # from the request order whenever there are two or more, often a superset (a compound no particle contains),
+        # sometimes lacking a requested name (`lack_ok`; tamoc then returns 0 for it)
+        order = list(chem_names)
+        if len(order) >= 2:
+            while order == list(chem_names):
+                rng.shuffle(order)
+        if lack_ok and len(order) >= 2 and rng.random() < 0.3:
+            order.pop(rng.randrange(len(order)))
+        if rng.random() < 0.6:
+            spare = [x for x in ('argon', 'propane', 'carbon_dioxide', 'nitrogen') if x not in chem_names]
+            order.insert(rng.randrange(len(order) + 1), rng.choice(spare))
+        for name in order:
             # kg/m^3; a surface value, a bottom value, linear in between
             spec['background'][name] = [10 ** rng.uniform(-6, -3), 10 ** rng.uniform(-6, -3)]
     return spec
@@ -93,7 +105,7 @@ def random_spec(rng, n_sol, n_inert, background, composition=None, strip=None):
     kinds = [True] * n_sol + [False] * n_inert
     rng.shuffle(kinds)
     chem_names = list(composition) if n_sol else []
-    prof = random_profile_spec(rng, chem_names, background)
+    prof = random_profile_spec(rng, chem_names, background, lack_ok=not strip)
     z0 = rng.uniform(0.25, 0.8) * prof['H']
     zero = ()
     if strip:
@@ -126,6 +138,25 @@ def random_spec(rng, n_sol, n_inert, background, composition=None, strip=None):
 class Scenario(object):
     """profile, particles (list of real PlumeParticle), p (real ModelParams), chem_names, K_T0"""
     pass
+
+
+def profile_table(ps):
+    """the raw table the harness hands to ambient.Profile, by name: {'z': nodes, <chemical>: column} — the reference for
+    ambient concentrations that does not go through the profile object's own name bookkeeping"""
+    z = np.linspace(0., ps['H'], int(ps['n']))
+    tab = {'z': z}
+    for name, (c_top, c_bot) in ps.get('background', {}).items():
+        tab[name] = c_top + (c_bot - c_top) * z / ps['H']
+    return tab
+
+
+def table_value(tab, z, name):
+    """linear interpolation of column `name` of the raw table at depth z (clamped to the table); 0 for a name the
+    table lacks (what tamoc documents for unknown names)"""
+    if name not in tab:
+        return 0.
+    zz = min(max(float(z), float(tab['z'][0])), float(tab['z'][-1]))
+    return float(np.interp(zz, tab['z'], tab[name]))
 
 
 def profile_from_spec(ps):
@@ -171,6 +202,7 @@ def build(spec):
     sc = Scenario()
     sc.spec = spec
     sc.profile = profile_from_spec(spec['profile'])
+    sc.table = profile_table(spec['profile'])
     sc.z0 = float(spec['z0'])
     sc.R = float(spec['R'])
     with warnings.catch_warnings():
